@@ -58,6 +58,13 @@ def run_grammar(args):
     tree = recs.get(f"g{idx}", {}).get("tree")
     if tree is None:
         return pg, text, "no-tree", None
+    # the oracle works on the tree the *generator* built, not on what the parser under test made of the text: a parser
+    # that reads `a || b || c` differently would otherwise move the specification along with the script
+    from . import c05
+    try:
+        tree = c05.spanned_grammar_wire(pg.variants, pg.defs)
+    except (ValueError, KeyError):
+        pass
     workdir = os.path.join(workroot, f"bash{idx % 64}")
     lines = complete.explore(rng, pg, out, workdir, max_seqs=16 if thorough else 8, max_prefixes=14 if thorough else 8)
     res = complete.run_both(pg, out, tree, lines, workdir)
